@@ -302,6 +302,11 @@ pub fn run_c08(tier: Tier) -> i32 {
         }
         plans.push(DynPlan { name: "4 labels: one framework per isomorphism class of U(4), then every sequence of 2 queries, oracle choices".into(), kinds: kinds.clone(), n_labels: 4, depth: 2, bad_budget: 0, max_queries: 3, prefixes: starts, backend: choice(1), only_with_bad: false, queries_only: true, updates_then_query: false });
     }
+    // 5 labels: one framework per isomorphism class of the sparse 5-argument digraphs, then every sequence of 2 queries
+    {
+        let starts: Vec<Vec<Op>> = crate::universe::iso_representatives_sparse(5, if thorough { 6 } else { 5 }).into_iter().filter(|g| g.n == 5).map(|g| construction_history(&g, false)).collect();
+        plans.push(DynPlan { name: "5 labels: one framework per isomorphism class of 5-argument digraphs with <= 5 [6] attacks, then every sequence of 2 queries, CaDiCaL".into(), kinds: kinds.clone(), n_labels: 5, depth: 2, bad_budget: 0, max_queries: 3, prefixes: starts, backend: Backend::Cadical, only_with_bad: false, queries_only: true, updates_then_query: false });
+    }
     let _ = graphs_note(&[]);
     // scripted long histories (4 labels, up to ~150 updates with every supported query after each)
     {
